@@ -1,7 +1,7 @@
 (* ConcCodecProofs.v — encode / decode on a shared cache return what they return alone. *)
 From Coq Require Import String List NArith Bool.
 From J5V.lib Require Import Outcome Json.
-From J5V.model Require Import Conc CodecTypes CodecEnc CodecDecScalar CodecDec ConcCodec.
+From J5V.model Require Import Conc CodecTypes CodecEnc CodecDecScalar CodecDec CodecDecQuery ConcCodec.
 From J5V.proofs Require Import ConcMainProofs ConcRetProofs.
 Import ListNotations.
 
@@ -18,10 +18,11 @@ Theorem codec_calls_are_solo nm denote fmt any orc K k g calls sched t n c later
   In (t, n, c) (rets Guarded k g calls sched) ->
   let h := heap (s_sh (run Guarded k g calls (sched ++ later))) in
   (forall m, encode_call nm denote fmt any K h c n m = encode_solo nm denote fmt any K g n m) /\
-  (forall doc, decode_call nm denote orc K h c n doc = decode_solo nm denote orc K g n doc).
+  (forall doc, decode_call nm denote orc K h c n doc = decode_solo nm denote orc K g n doc) /\
+  (forall kvs, query_call nm denote orc K h c n kvs = query_solo nm denote orc K g n kvs).
 Proof.
-  intros Hok Hin h. unfold encode_call, decode_call, encode_solo, decode_solo. subst h.
-  rewrite (env_seen_is_type nm denote K k g calls sched t n c later Hok Hin). split; reflexivity.
+  intros Hok Hin h. unfold encode_call, decode_call, query_call, encode_solo, decode_solo, query_solo. subst h.
+  rewrite (env_seen_is_type nm denote K k g calls sched t n c later Hok Hin). repeat split; reflexivity.
 Qed.
 
 (* and that is the schema of the solo call: a call alone on a fresh cache returns gunfold *)
